@@ -8,6 +8,9 @@ package absnfs
 //@ specdef replyIsBytes(r *RPCReply) bool = typeof(r.Data) == typeid([]byte)
 //@ specdef replyLen(r *RPCReply) mathint = len(unboxed(r.Data, []byte))
 //@ specdef replyWord(r *RPCReply, p mathint) mathint = sbe32(unboxed(r.Data, []byte), p)
+// what FSINFO may advertise for a configured transfer size: that size, capped at the record limit (1 MiB) less
+// 4 KiB for the RPC header and the WRITE arguments
+//@ specdef advMax(ts mathint) mathint = ite(ts > 0 && ts < 1044480, ts, 1044480)
 //@ specdef replyStatus(r *RPCReply) mathint = sbe32(unboxed(r.Data, []byte), 0)
 
 // ---- error reply builders: status word followed by "no attributes" markers
@@ -81,6 +84,8 @@ package absnfs
 //@ func NFSProcedureHandler.handleRead
 //@ prop C08
 //@ partial
+// C23: a READ is never refused for its size (larger counts are served short)
+//@ callassert nfsErrorWithPostOp : [inval-only-overflow] {C23} isconst(arg1) && arg1 == 22 ==> offset > 18446744073709551615 - count
 //@ ensures [never-mutates] mutlog == old(mutlog)
 //@ func NFSProcedureHandler.handleReaddir
 //@ prop C08
@@ -98,6 +103,10 @@ package absnfs
 //@ prop C08
 //@ partial
 //@ ensures [never-mutates] mutlog == old(mutlog)
+// C23: the maxima and preferred sizes FSINFO puts on the wire (rtmax, rtpref, rtmult, wtmax, wtpref, wtmult at
+// bytes 92..115 of the result) are the limit READ and WRITE serve: the transfer size, capped below the record size
+//@ ensures [advertised-maxima] {C23} result0 == reply && replyIsBytes(reply) && replyStatus(reply) == 0 ==> replyLen(reply) >= 116 && replyWord(reply, 92) == advMax(old(curTuning(h.server.handler).TransferSize)) && replyWord(reply, 104) == advMax(old(curTuning(h.server.handler).TransferSize))
+//@ ensures [advertised-preferred] {C23} result0 == reply && replyIsBytes(reply) && replyStatus(reply) == 0 ==> replyWord(reply, 96) <= replyWord(reply, 92) && replyWord(reply, 100) <= replyWord(reply, 92) && replyWord(reply, 108) <= replyWord(reply, 104) && replyWord(reply, 112) <= replyWord(reply, 104)
 //@ func NFSProcedureHandler.handlePathconf
 //@ prop C08
 //@ partial
@@ -115,6 +124,8 @@ package absnfs
 //@ func NFSProcedureHandler.handleWrite
 //@ prop C08
 //@ partial
+// C23: a WRITE is refused as invalid only for an offset+count overflow or a count above what FSINFO advertises
+//@ callassert nfsErrorWithWcc : [inval-only-oversize] {C23} isconst(arg1) && arg1 == 22 ==> offset > 18446744073709551615 - count || count > advMax(curTuning(h.server.handler).TransferSize)
 //@ ensures [ro-refused] old(curPolicy(h.server.handler).ReadOnly) ==> result0 == reply && replyIsBytes(reply) && replyStatus(reply) != 0
 //@ func NFSProcedureHandler.handleCreate
 //@ prop C08
